@@ -71,6 +71,7 @@ class AdaptationSet(ObjectWithFields):
             'mimeType': content_type_to_mime_type(
                 self.content_type, kwargs.get('codecs', None)),
             'fileSuffix': content_type_file_suffix(self.content_type),
+            'startWithSAP': 1,
         }
         if self.content_type == 'audio':
             defaults['lang'] = 'und'
